@@ -11,8 +11,30 @@ META = {
 }
 
 
+def attr_mixtures(rep, tier):
+    import time
+    from vrf.core import Result, VIOLATED, BOUNDED_OK
+    from vrf.propkit import pool_map
+    from vrf.bounded import attr_grid as G
+    t0 = time.time()
+    outs = pool_map(G.run_chunk, [(i, 16) for i in range(16)])
+    n = sum(o[0] for o in outs)
+    bad = [b for o in outs for b in o[1]]
+    bound = "attribute values of a call with content built from 1-2 pieces (and 3 with a whitespace-only piece) out of 15: literals, blank-only text, leading/trailing blanks, ${} values, quotes, # and %"
+    if bad:
+        rep.add(Result("C05.attribute-mixtures", VIOLATED, klass="B", backend="native-oracle", function="mako.parsetree:Tag._parse_attributes", bound=bound, evaluations=n,
+                       detail="attribute %r arrives as %r, expected %r" % (bad[0]["attribute"], bad[0]["got"], bad[0]["expected"]), witness=bad[0], replayed=True,
+                       replay={"failures": bad[:3]}, time_s=time.time() - t0))
+    else:
+        rep.add(Result("C05.attribute-mixtures", BOUNDED_OK, klass="B", backend="native-oracle", function="mako.parsetree:Tag._parse_attributes", bound=bound, evaluations=n,
+                       time_s=time.time() - t0, detail="literal text as strings, ${} as values, mixtures concatenated in order"))
+
+
 def run(rep, tier):
     rep.trust(*BASE_TRUST)
     rep.assume(*BASE_ASSUME)
     run_pyvc(rep, contracts_for("C05"), native_limit=150 if tier == "quick" else 600)
     run_schema(rep, family(tier), labels="normal")
+    attr_mixtures(rep, tier)
+    from vrf.propkit import link_bounded_witness
+    link_bounded_witness(rep, only=lambda r: "_parse_attributes" in r.oid)
